@@ -1,9 +1,57 @@
-(** C06 — property theorems (placeholder stage: the general first-match theorem is
-    being developed in C06/Proofs.v; what is proved here is stated exactly). *)
-From Goml Require Import Common.Base C06.Model.
+(** C06 — property theorems only *)
+From Goml Require Import Common.Base C06.Model C06.Spec C06.P2 C06.P15 C06.P16.
+From Coq Require Import Permutation.
 
-(** a row with no columns left is selected at once (the base case of first match) *)
-Theorem empty_first_row_selected : forall E fuel r rs s,
-  cols (strip_row r) = [] ->
-  compile_rows E (S fuel) (r :: rs) s = (KBody (rbody (strip_row r)), s).
-Proof. intros E fuel r rs s H. cbn. rewrite H. reflexivity. Qed.
+(** FIRST MATCH.  For every type environment, every scrutinee type, every list of arms
+    typed against it (any number of rows, any nesting of bool / unit / integer /
+    string / tuple / enum / struct patterns, variables and wildcards) and every
+    scrutinee value of that type: if the match compiler accepted the match (no
+    non-exhaustive-literal diagnostic) and reached no panic site, then evaluating the
+    emitted decision tree selects exactly the first arm in source order whose pattern
+    matches, with exactly that arm's bindings — or fails (Missing) when no arm
+    matches.  The scrutinee variable is evaluated by the tree only through lookups
+    (it is never re-evaluated: it is a variable). *)
+Theorem compile_match_first_match : forall E fuel scrut arms g0 t v k s',
+  compile_match E fuel scrut arms g0 = (k, s') ->
+  diag s' = false ->
+  no_panic k ->
+  Forall (fun p => pat_ok E p t) arms ->
+  val_ok E v t ->
+  (match scrut with G m => (m < g0)%N | U _ => True end) ->
+  outcome_equiv (eval_core k [(scrut, v)]) (first_match arms v).
+Proof. exact P16.compile_match_first_match. Qed.
+
+(** the general statement over pattern matrices (several columns, as they arise for
+    nested patterns) *)
+Theorem compile_rows_first_match : forall E fuel rows s k s' Gam rho,
+  compile_rows E fuel rows s = (k, s') -> diag s' = false -> no_panic k ->
+  WF E Gam rows s rho -> outcome_equiv (eval_core k rho) (first_match_rows rows rho).
+Proof. exact P15.compile_rows_correct. Qed.
+
+(** an integer or string match without a catch-all arm is rejected at compile time *)
+Theorem literal_match_without_default_rejected : forall E fuel scrut l1 l2 w g0,
+  diag (snd (compile_match E (S (S fuel)) scrut [PLit (LInt l1) (TyInt w); PLit (LInt l2) (TyInt w)] g0)) = true.
+Proof. intros. cbn. destruct (Z.eqb l1 l2); reflexivity. Qed.
+
+(** non-vacuity: a concrete three-arm match on (E, int) satisfies every hypothesis *)
+Definition ex_env : tenv := {| enums := [[[]; [TyInt 2; TyBool]]]; structs := [] |}.
+Definition ex_ty : ty := TyTuple [TyEnum 0; TyInt 2].
+Definition ex_arms : list pat :=
+  [ PTuple [PEnum 0 1 [PVar 5 (TyInt 2); PLit (LBool true) TyBool] (TyEnum 0); PLit (LInt 3) (TyInt 2)] ex_ty;
+    PTuple [PWild (TyEnum 0); PLit (LInt 3) (TyInt 2)] ex_ty;
+    PVar 6 ex_ty ].
+Example first_match_nonvacuous :
+  let '(k, s') := compile_match ex_env 50 (U 0) ex_arms 0 in
+  diag s' = false /\ no_panic k /\ Forall (fun p => pat_ok ex_env p ex_ty) ex_arms /\
+  val_ok ex_env (VTuple [VEnum 0 1 [VLit (LInt 9); VLit (LBool true)]; VLit (LInt 3)]) ex_ty /\
+  eval_core k [(U 0, VTuple [VEnum 0 1 [VLit (LInt 9); VLit (LBool true)]; VLit (LInt 3)])] = Hit 0 [(5, VLit (LInt 9))].
+Proof.
+  vm_compute. repeat split; try exact I.
+  - repeat constructor.
+    + eapply ok_enum; [reflexivity|reflexivity|]. repeat constructor.
+    + exact I.
+    + exact I.
+  - repeat constructor.
+    + eapply vok_enum; [reflexivity|reflexivity|]. repeat constructor; exact I.
+    + exact I.
+Qed.
